@@ -22,7 +22,7 @@ RULE = ("part 'format': Eliot messages (metadata + action/message typing + field
         "microsecond), then every remaining field exactly once, type/status fields first and the rest sorted; compact values decoded "
         "with json.JSONDecoder.raw_decode must equal the field values; pretty blocks are repr-exact for scalars and short strings and "
         "must contain every leaf token otherwise. part 'cli': mixed byte streams (Eliot lines, arbitrary bytes, non-JSON text, JSON "
-        "scalars/arrays/null/strings, objects lacking required fields) are piped through the eliot-prettyprint entry point in a "
+        "scalars/arrays/null/strings, objects lacking required fields, messages whose text holds surrogate escapes) are piped through the eliot-prettyprint entry point in a "
         "subprocess: exit status 0, one record per input line in order, Eliot lines rendered as the API renders them, every other "
         "line reported as 'Not JSON' / 'Not an Eliot message'. part 'filter': python -m eliot.filter with J reproduces every "
         "message, with SKIP drops exactly the selected ones. non-trivial = message with a multi-line/escape-requiring string or "
